@@ -83,21 +83,19 @@ def run(ctx):
         cfg_umn = pyg.make_config(tree.root, **{"handlers.dir.DirHandler|cachetime": "0"})
         cfg_dir = pyg.make_config(tree.root, pyg.DIR_HANDLERS, **{"handlers.dir.DirHandler|cachetime": "0"})
         patt = cfg_umn.get("handlers.dir.DirHandler", "ignorepatt")
-        ndirs = ctx.n(25, 400)
-        for i in range(ndirs):
-            d = "/d%d" % i
-            names = make_dir(tree, rng, d)
-            for hname, cfg, umn in (("umn", cfg_umn, True), ("dir", cfg_dir, False)):
+        def probe(tr, cu, cd, d, names):
+            """d: selector of the directory without trailing slash ('' for the root)"""
+            for hname, cfg, umn in (("umn", cu, True), ("dir", cd, False)):
                 outs = []
                 for perm in range(3):
                     with shuffled_listdir(rng) as sh:
-                        r = pyg.request(reqs.build("gopher", d), cfg)
-                        order = sh.last.get(tree.path(d), None) or sh.last.get(os.fsdecode(tree.path(d)))
+                        r = pyg.request(reqs.build("gopher", d or "/"), cfg)
+                        order = sh.last.get(tr.path(d), None) or sh.last.get(os.fsdecode(tr.path(d))) or sh.last.get(os.fsdecode(tr.path(d)).rstrip("/")) or sh.last.get(tr.path(d).rstrip(b"/"))
                     res.evaluations += 1
                     outs.append(r.out)
                     if order is not None:
                         order = [os.fsdecode(x) if isinstance(x, bytes) else x for x in order]
-                        model_lines.append(dirmodel.request(tree, cfg, d, order, umn=umn))
+                        model_lines.append(dirmodel.request(tr, cfg, d or "/", order, umn=umn))
                         checks.append(({"dir": d, "handler": hname, "enumeration": order}, r.out))
                 inp = {"dir": d, "handler": hname, "names": names}
                 rp = {"names": names, "handler": hname}
@@ -146,6 +144,32 @@ def run(ctx):
                 s = d + "/" + n
                 regex_lines.append("research\t" + enc_str(s))
                 regex_checks.append((s, re.search(patt, s) is not None))
+
+        ndirs = ctx.n(25, 400)
+        for i in range(ndirs):
+            d = "/d%d" % i
+            names = make_dir(tree, rng, d)
+            probe(tree, cfg_umn, cfg_dir, d, names)
+        # dot-directories: kept out of their parent's listing, but their own listing is a listing like any other
+        for d in ("/d0/.well-known", "/d1/.attic/2019", "/.topdot"):
+            names = make_dir(tree, rng, d)
+            probe(tree, cfg_umn, cfg_dir, d, names)
+        # the root directory itself (the '/'-anchored alternatives of the ignore pattern apply there too)
+        tree_r = pyg.Tree()
+        try:
+            names = make_dir(tree_r, rng, "")
+            for n in ("lib", "bin", "etc", "robots.txt", "nohup.out", "veronica.ctl", "readme.txt", "library"):
+                if n not in names:
+                    if n in ("lib", "bin", "etc"):
+                        tree_r.mkdir("/" + n)
+                    else:
+                        tree_r.write("/" + n, b"x")
+                    names.append(n)
+            names = sorted(set(names))
+            probe(tree_r, pyg.make_config(tree_r.root, **{"handlers.dir.DirHandler|cachetime": "0"}),
+                  pyg.make_config(tree_r.root, pyg.DIR_HANDLERS, **{"handlers.dir.DirHandler|cachetime": "0"}), "", names)
+        finally:
+            tree_r.close()
         outs = ctx.driver.run(model_lines + regex_lines)
         for (inp, impl), o in zip(checks, outs[:len(model_lines)]):
             res.evaluations += 1
